@@ -9,7 +9,7 @@ func init() {
 			"the keeper passes to the state-change helpers the values it gave to / received from the pool model; the taker fee is the exact difference between what the trader pays and what reaches the pool, and exactly that fee is sent to the collector; the router hands the pool the after-fee coin.",
 		NotCovered:  []string{"bank balance = reported reserves over histories (direct sends are allowed by the statement)", "supply of non-share tokens (bank module semantics)", "cosmwasm pools", "pool-model internals (C04)"},
 		Assumptions: []string{"bank keeper MintCoins/BurnCoins/SendCoins semantics"},
-		MinObl:      53,
+		MinObl:      61,
 		Run:         runC02,
 	})
 }
@@ -87,6 +87,14 @@ func runC02(c *rules.Ctx) {
 	c.FreshRead(R+"RouteExactAmountOut", "poolmanager.Keeper.GetPoolModuleAndPool", swaps, "poolmanagertypes.PoolModuleI.SwapExactAmountOut", 3, "each hop of an exact-out route swaps against the pool read after the previous hop (a route may visit a pool twice)")
 	c.FreshRead(R+"SwapExactAmountIn", "poolmanager.Keeper.GetPoolModuleAndPool", swaps, "poolmanagertypes.PoolModuleI.SwapExactAmountIn", 3, "a hop swaps against the pool it has just read")
 	c.FreshRead(R+"SwapExactAmountInNoTakerFee", "poolmanager.Keeper.GetPoolModuleAndPool", swaps, "poolmanagertypes.PoolModuleI.SwapExactAmountIn", 3, "a hop swaps against the pool it has just read")
+	// the pool model is changed before it is persisted and settled
+	c.NeverAfter(K+"JoinSwapShareAmountOut", "gammkeeper.Keeper.applyJoinPoolStateChange", "gammtypes.PoolAmountOutExtension.IncreaseLiquidity", "the reserves and shares are booked on the pool object before it is stored and settled (a later change would never be stored)")
+	c.NeverAfter(K+"JoinPoolNoSwap", "gammkeeper.Keeper.applyJoinPoolStateChange", "gammtypes.CFMMPoolI.JoinPoolNoSwap", "the join is applied to the pool object before it is stored")
+	c.NeverAfter(K+"JoinSwapExactAmountIn", "gammkeeper.Keeper.applyJoinPoolStateChange", "gammtypes.CFMMPoolI.JoinPool", "the join is applied to the pool object before it is stored")
+	c.NeverAfter(K+"ExitPool", "gammkeeper.Keeper.applyExitPoolStateChange", "gammtypes.CFMMPoolI.ExitPool", "the exit is applied to the pool object before it is stored")
+	c.NeverAfter(K+"ExitSwapExactAmountOut", "gammkeeper.Keeper.applyExitPoolStateChange", "gammtypes.PoolAmountOutExtension.ExitSwapExactAmountOut", "the exit is applied to the pool object before it is stored")
+	c.NeverAfter(K+"SwapExactAmountIn", "gammkeeper.Keeper.updatePoolForSwap", "gammtypes.CFMMPoolI.SwapOutAmtGivenIn", "the swap is applied to the pool object before it is stored")
+	c.NeverAfter(K+"SwapExactAmountOut", "gammkeeper.Keeper.updatePoolForSwap", "gammtypes.CFMMPoolI.SwapInAmtGivenOut", "the swap is applied to the pool object before it is stored")
 	// ---- balancer model internals reached by the entries above
 	const BP = "x/gamm/pool-models/balancer.Pool."
 	c.Let("SHARESIN", "sdkmath.LegacyDec.TruncateInt(balancer.calcPoolSharesInGivenSingleAssetOut(...))")
@@ -95,4 +103,5 @@ func runC02(c *rules.Ctx) {
 	c.Returns(BP+"ExitSwapExactAmountOut", 0, "{SHARESIN} | zero:Int()", "…and reports those shares to the keeper, which burns them", "")
 	c.FailsWhen(BP+"ExitSwapExactAmountOut", "sdkmath.Int.GT({SHARESIN}, shareInMaxAmount)", "more shares than the caller's maximum is an error", rules.GuardOpt{Before: "balancer.Pool.exitPool"})
 	c.StoresOnlyFields(BP+"updateAllWeights", "PoolAsset", []string{"Weight"}, "a weight update (LBP poke) rewrites only the weights of the pool assets, never their token reserves")
+	c.ForEach(BP+"calcJoinSingleAssetTokensIn", "sdk.Coins.Add", "tokensIn", "every coin handed to a single-asset join is added to the liquidity booked on the pool (the keeper moves all of them to the pool account)", false)
 }
